@@ -14,7 +14,8 @@
    613 placeholder allocation on a node whose application is not live
    614 timer firing panicked
    650 known (C06-swap-released-otherwise): dangling real ask after its in-flight placeholder was released by the shim with another termination type
-   651 known (C06-confirm-after-completing): swap confirmed after the completing timeout cleaned up: application terminated, real allocation orphaned
+   651 known (C06-confirm-after-completing): swap confirmed while the application is Failing, or Completing after the completing
+       timeout cleaned up: removing the last placeholder terminates the application before the real allocation is added
    652 known (C06-swap-real-removed): placeholder keeps the link to a real ask the shim removed while the swap was in flight
    653 known (C06-inflight-resized): resources of the real ask raised above the placeholder while the swap was in flight; usage grows at the confirmation
    690 placeholder counters do not change the way the model's writers change them
@@ -126,7 +127,7 @@ Definition confirm_check (pre : ostate) (st : ostep) (a phk : N) : list N :=
               let raw := (if gone && placed then [] else [604]) ++ (if eqs then [] else [605]) ++ (if les then [] else [606]) in
               match raw with
               | [] => []
-              | _ => if (ap_state ap0 =? ST_Completing) && negb (ap_statetimer ap0) then [651]
+              | _ => if ((ap_state ap0 =? ST_Completing) && negb (ap_statetimer ap0)) || (ap_state ap0 =? ST_Failing) then [651]
                      else if negb (res_le (oa_res real) (oa_res ph)) then [653]
                      else raw
               end
@@ -437,7 +438,11 @@ Definition model_known (poison : list (N * N * N)) (pre : ostate) (st : ostep) (
       let pk := poison_kind (a, k) poison in
       let pl := poison_kind (a, linked) poison in
       if negb (pk =? 0) then pk else if negb (pl =? 0) then pl
-      else if (ty =? TT_PlaceholderReplaced) && (ap_state ap0 =? ST_Completing) && negb (ap_statetimer ap0) then 651
+      else if (ty =? TT_PlaceholderReplaced) && (((ap_state ap0 =? ST_Completing) && negb (ap_statetimer ap0)) || (ap_state ap0 =? ST_Failing)) then 651
+      else if (ty =? TT_PlaceholderReplaced) &&
+              match find_alloc (ap_allocs ap0) k, find_alloc (ap_requests ap0) linked with
+              | Some ph, Some r => negb (res_le (oa_res r) (oa_res ph))
+              | _, _ => false end then 653
       else 0
   | _ => 0
   end.
